@@ -317,6 +317,11 @@ def run(ctx):
             else:
                 r3.violation(key, verdict, common.fn_line(prog, helper))
             continue
+        recv = strip_refs(e.a[1][0])
+        if not (recv.k == "call" and recv.a[0].endswith("::get") and "HashMap" in recv.a[0] and self_path(recv.a[1][0]) is not None and len(self_path(recv.a[1][0])) == 1):
+            r3.violation(key, "the filtered value is %s, not one look-up of the requested entry in the layout map — an empty or missing assignment can be replaced by "
+                         "another entry's value" % (recv.a[0].split("::")[-1] + "(…)" if recv.k == "call" else repr(recv)[:80]), common.fn_line(prog, helper))
+            continue
         clo = e.a[1][1]
         if not (clo.k == "agg" and clo.a[0].startswith("closure:")):
             r3.undecidable(key, "filter predicate is not a local closure", common.fn_line(prog, helper))
@@ -402,6 +407,9 @@ def _explicit_filter(prog, helper, is_np):
     every path returning None must have seen one of them fail.  Returns True | None (unknown shape) | message."""
     from engine.analyses import sym_paths, PathLimit, bool_of
     b = prog.body(helper)
+    n_get = sum(1 for (bb, t) in b.calls() if callee_name(t).endswith("HashMap::<K, V, S, A>::get"))
+    if n_get != 1:
+        return "the helper looks the layout map up %d times (expected exactly the requested entry) — a missing or empty assignment can be replaced by another entry" % n_get
     try:
         paths = sym_paths(b, 0, 400)
     except PathLimit:
